@@ -379,17 +379,23 @@ func evalC19Plan(p c19Plan) *Failure {
 			// released regardless - the registry may hold only the non-reading stallers (and idle connections)
 			stallerReady.Wait()
 			deadline := time.Now().Add(settleBudget)
-			for len(srv.Conns()) > nStall+nIdle && time.Now().Before(deadline) {
-				time.Sleep(2 * time.Millisecond)
-			}
-			if n := len(srv.Conns()); n > nStall+nIdle {
-				var regs []string
-				for _, rc := range srv.Conns() {
-					regs = append(regs, rc.RemoteAddr().String())
+			for {
+				// one reading per iteration: a connection whose client has long finished may be accepted (and
+				// registered for a moment) only now, so the count can still go up before it settles
+				regs := srv.Conns()
+				if len(regs) <= nStall+nIdle {
+					break
 				}
-				close(releaseStallers)
-				stallWg.Wait()
-				return failf("c19|release-blocked-by-stalled-peer", "%s: registered peers %v; %d connections are still registered 15s after every connection except %d non-reading clients had ended (clients that merely keep their end open after QUIT or a protocol error do not count): the server side of an ended connection was not released", what, regs, n, nStall)
+				if time.Now().After(deadline) {
+					var peers []string
+					for _, rc := range regs {
+						peers = append(peers, rc.RemoteAddr().String())
+					}
+					close(releaseStallers)
+					stallWg.Wait()
+					return failf("c19|release-blocked-by-stalled-peer", "%s: registered peers %v: %d connections are still registered 15s after every connection except %d non-reading clients had ended (clients that merely keep their end open after QUIT or a protocol error do not count): the server side of an ended connection was not released", what, peers, len(regs), nStall)
+				}
+				time.Sleep(2 * time.Millisecond)
 			}
 		}
 		close(releaseStallers)
